@@ -6,6 +6,8 @@ package c07
 
 import (
 	"fmt"
+	"net/textproto"
+	"sort"
 	"strings"
 	"testing"
 	"time"
@@ -30,7 +32,9 @@ type Case struct {
 
 func genCase(t *rapid.T) Case {
 	format := rapid.SampledFrom([]string{"uri", "uripost", "raw", "jsonline"}).Draw(t, "format")
-	c := Case{File: ag.Gen(t, format, ag.GenOpts{MinEntries: 1, MaxEntries: 8, AllowBig: true})}
+	c := Case{File: ag.Gen(t, format, ag.GenOpts{MinEntries: 1, MaxEntries: 8, AllowBig: true,
+		// header values with brackets and colons anywhere (also at the very ends); default headers through the `headers` option
+		BracketValues: true, ConfigHeaders: true})}
 	c.Passes = rapid.IntRange(1, 3).Draw(t, "passes")
 	c.Hold = rapid.SampledFrom([]int{1, 1, 2, 4}).Draw(t, "hold")
 	c.Preload = rapid.Bool().Draw(t, "preload")
@@ -53,6 +57,11 @@ func check(c Case, o *vf.Obs) error {
 	}
 	if c.Preload {
 		conf["preload"] = true
+	}
+	if hs := f.ConfigHeaderLines(); len(hs) > 0 {
+		// docs/eng/providers.md: "You can define common headers using special config option `headers`. Headers in ammo
+		// file have priority. Format: list of strings" - the effective headers of an entry are the file's plus these defaults
+		conf["headers"] = hs
 	}
 	p, err := provrun.Build(conf)
 	if err != nil {
@@ -136,6 +145,7 @@ func check(c Case, o *vf.Obs) error {
 	if len(ents) >= 2 && (f.Layout.LayoutKnobOn() || f.MidFileDirective() || binary) {
 		o.NonTrivial()
 	}
+	classifyHeaderValues(f, want, o)
 	// last entry of a uripost file has an empty body and the file lacks a final newline
 	if f.Format == "uripost" && f.Layout.NoFinalNL && f.Layout.TrailBlank == 0 {
 		if it := f.Items[len(f.Items)-1]; it.Entry != nil && len(it.Entry.Body) == 0 {
@@ -143,6 +153,88 @@ func check(c Case, o *vf.Obs) error {
 		}
 	}
 	return nil
+}
+
+// classifyHeaderValues labels the shapes of "[Name: value]" values (in-file directives, the `headers` option) and of the
+// entries' own header values that were judged: brackets at the very ends of a value, colons inside it, bracketed IPv6 hosts.
+// A directive / default counts only when its value is what the model expects some entry to carry (it is in effect somewhere).
+// classSet collects the labels of one case, each at most once.
+type classSet map[string]bool
+
+func (s classSet) ClassIf(cond bool, name string) {
+	if cond {
+		s[name] = true
+	}
+}
+
+func (s classSet) emit(o *vf.Obs) {
+	names := make([]string, 0, len(s))
+	for n := range s {
+		names = append(names, n)
+	}
+	sort.Strings(names)
+	o.Class(names...)
+}
+
+func classifyHeaderValues(f ag.File, want []ag.Want, obs *vf.Obs) {
+	o := classSet{}
+	defer o.emit(obs)
+	inEffect := func(h ag.KV) bool {
+		k := textproto.CanonicalMIMEHeaderKey(h.K)
+		for _, w := range want {
+			if k == "Host" && w.Host == h.V || k != "Host" && w.Headers[k] == h.V {
+				return true
+			}
+		}
+		return false
+	}
+	shape := func(src string, h ag.KV) {
+		if !inEffect(h) {
+			return
+		}
+		v := h.V
+		host := textproto.CanonicalMIMEHeaderKey(h.K) == "Host"
+		o.ClassIf(strings.HasSuffix(v, "]"), src+"_value_ends_with_bracket")
+		o.ClassIf(strings.HasSuffix(v, "]"), src+"_value_ends_with_bracket_"+f.Format)
+		o.ClassIf(strings.HasSuffix(v, "]]"), src+"_value_ends_with_bracket_run")
+		o.ClassIf(strings.HasPrefix(v, "["), src+"_value_starts_with_bracket")
+		o.ClassIf(strings.HasPrefix(v, "[") && strings.HasSuffix(v, "]"), src+"_value_bracketed_at_both_ends")
+		o.ClassIf(strings.ContainsAny(v, "[]") && !strings.HasSuffix(v, "]") && !strings.HasPrefix(v, "["), src+"_value_brackets_inside_only")
+		o.ClassIf(!host && strings.Contains(v, ":"), src+"_value_with_colon")
+		o.ClassIf(host && strings.HasPrefix(v, "["), src+"_host_ipv6_literal")
+		o.ClassIf(host && strings.HasPrefix(v, "[") && strings.HasSuffix(v, "]"), src+"_host_ipv6_literal_without_port")
+	}
+	for _, it := range f.Items {
+		if it.Dir != nil {
+			shape("directive", *it.Dir)
+		}
+	}
+	for _, h := range f.ConfHeaders {
+		shape("config_header", h)
+	}
+	o.ClassIf(len(f.ConfHeaders) > 0, "config_headers")
+	o.ClassIf(len(f.ConfHeaders) > 0, "config_headers_"+f.Format)
+	// a default that the file overrides for some entries (a directive / own header of the same name, an own Host) and
+	// that is in effect for others
+	for _, h := range f.ConfHeaders {
+		k := textproto.CanonicalMIMEHeaderKey(h.K)
+		on, off := 0, 0
+		for _, w := range want {
+			if k == "Host" && w.Host == h.V || k != "Host" && w.Headers[k] == h.V {
+				on++
+			} else {
+				off++
+			}
+		}
+		o.ClassIf(on > 0 && off > 0, "config_header_overridden_for_some_entries")
+		o.ClassIf(on == 0, "config_header_overridden_everywhere")
+	}
+	for _, e := range f.Entries() {
+		for _, h := range e.Headers {
+			o.ClassIf(strings.HasSuffix(h.V, "]"), "entry_header_value_ends_with_bracket")
+		}
+		o.ClassIf(strings.HasPrefix(e.Host, "["), "entry_host_ipv6_literal")
+	}
 }
 
 func TestDecode(t *testing.T) {
